@@ -65,7 +65,7 @@ def gen_real(rng):
             elif k == "shift":
                 ops.append("epg.S(%d%s)" % (rng.choice([1, 2, 3, -1, -2]), rng.choice(["", "", ", nmax=%d" % rng.choice([1, 2, 4])])))
             elif k == "reset": ops.append("epg.RESET")
-            elif k == "pd": ops.append("epg.PD(%s, reset=%s)" % (rng.choice([0.5, 2, 3]), rng.choice([True, False])))
+            elif k == "pd": ops.append("epg.PD(%s, reset=%s)" % (rng.choice([0.5, 2, "[1, 2]", "[1, 2]", "np.array([[0.5], [2.0]])"]), rng.choice([True, False, False])))
             else: ops.append("epg.SPOILER")
     elif fam == "nd":
         dim = rng.choice([1, 2, 3])
@@ -83,7 +83,7 @@ def gen_real(rng):
                 extra = rng.choice(["", "", ", nmax=%d" % rng.choice([1, 2, 3]), ", prune=%s" % rng.choice([0, 1e-8, 1e-2])])
                 ops.append("epg.S(np.array(%s)%s)" % (kv if batched else kv[0], extra))
             elif k == "reset": ops.append("epg.RESET")
-            else: ops.append("epg.PD(%s, reset=%s)" % (rng.choice([0.5, 2]), rng.choice([True, False])))
+            else: ops.append("epg.PD(%s, reset=%s)" % (rng.choice([0.5, 2, "[1, 2]"]), rng.choice([True, False])))
     elif fam == "float":
         dim = rng.choice([1, 2, 3])
         init = "epg.StateMatrix(kgrid=%s)" % rng.choice([0.25, 1.0, 3.0])
@@ -144,7 +144,14 @@ def gen_real(rng):
                 # D(tau, D, k): diffusion during the gradient that produced the preceding shift S(k)
                 kexpr = ops[-1][len("epg.S("):-1]
                 ops.append("epg.D(%s, %s, %s)" % (rng.choice([5, 20]), rng.choice([1.0, 2.5]), kexpr))
-    return {"family": fam, "init": init, "ops": ops}
+    # a batched density with reset=False leaves the states on fewer batch axes than the equilibrium: the operators that
+    # follow (RESET above all) must still produce a well-formed matrix
+    out = []
+    for o in ops:
+        out.append(o)
+        if o.startswith("epg.PD(") and ("[" in o) and "reset=False" in o and rng.random() < 0.6:
+            out.append(rng.choice(["epg.RESET", "epg.RESET", "epg.SPOILER", "epg.T(60, 45)"]))
+    return {"family": fam, "init": init, "ops": out}
 
 
 def run_real(p):
